@@ -186,6 +186,26 @@ Theorem sys_never_stale : forall (cfg sv : Type) (stack : list sv -> option cfg)
   end.
 Proof. exact @sys_never_stale_l. Qed.
 
+(* none after unregister, for every schedule: once the callback goroutine has
+   taken the unregister event of a handle whose registration it had processed
+   (the only way an unregister function for h can exist), it emits the ack right
+   there and nothing it does afterwards is an invocation of h; so after the
+   unregister function has seen the closed done channel and returned true, h is
+   never invoked *)
+Theorem sys_none_after_unregister : forall (cfg sv : Type) (stack : list sv -> option cfg) (verify : cfg -> bool)
+    (p : params) (on_new on_err : bool) (cbcap : N) (inits : list sv) (watching : list bool)
+    (s0 : sys cfg sv) (ls : list (label sv)) (s : sys cfg sv) (h a : N) (tok : option (vcfg cfg))
+    (pre post : list (cb_event cfg)),
+  snd (sys_init stack verify p inits watching) = Ok s0 ->
+  run stack verify p on_new on_err cbcap s0 ls = Some s ->
+  taken_of (s_log s) = pre ++ EvUnreg h a :: post -> In (EvReg h tok) pre ->
+  exists rest,
+    cb_hist (s_log s) ++ rest =
+      outs on_new on_err cb_init pre ++ [OAck a]
+        ++ outs on_new on_err (after on_new on_err cb_init (pre ++ [EvUnreg h a])) post /\
+    existsb (is_user_inv_of h) (outs on_new on_err (after on_new on_err cb_init (pre ++ [EvUnreg h a])) post) = false.
+Proof. exact @sys_none_after_unregister_l. Qed.
+
 Print Assumptions never_stale.
 Print Assumptions catchup_iff.
 Print Assumptions none_after_unregister.
@@ -203,3 +223,4 @@ Print Assumptions sys_callbacks_in_install_order.
 Print Assumptions sys_old_is_predecessor.
 Print Assumptions handles_enqueued_once.
 Print Assumptions sys_never_stale.
+Print Assumptions sys_none_after_unregister.
